@@ -5,10 +5,12 @@
 From Coq Require Import List ZArith String.
 From Coq Require Extraction ExtrOcamlBasic.
 From LI Require Import Prelude Base SqliLex SqliFold Html5 Xss.
+From LI Require Import Cost.CostBase Cost.CostHtml5 Cost.CostXss Cost.CostSqliLex Cost.CostSqliFold.
 Extraction Language OCaml.
 Extraction "model.ml"
   Base.code Base.byte_of_Z Base.len
   SqliLex.tokens SqliFold.fold_tokens SqliFold.fingerprint_ctx SqliFold.is_sqli
   Html5.h5_tokens Xss.xss_ctx Xss.is_xss Xss.html_decode_byte_at
   Xss.is_black_url Xss.is_black_tag Xss.is_black_attr
-  SqliLex.search_keyword.
+  SqliLex.search_keyword
+  CostXss.c_is_xss CostSqliFold.c_is_sqli.
